@@ -40,7 +40,14 @@ def main() -> int:
         return setup()
     if not a.prop:
         ap.error("property id required")
-    mod = importlib.import_module(f"harness.props.{a.prop}")
+    try:
+        mod = importlib.import_module(f"harness.props.{a.prop}")
+    except Exception as e:  # the harness itself (or the dnspython it imports) does not load: no verdict
+        import traceback
+
+        traceback.print_exc()
+        print(f"INFRA: cannot load harness.props.{a.prop}: {e!r}")
+        return 2
     if a.replay:
         obj = json.load(open(a.replay))
         ctx = core.Ctx(a.prop, a.tier, a.seed)
